@@ -17,7 +17,8 @@ func init() {
 		decided: "newlines are dropped by the parser's advance() and remembered in one flag that is read only by the statement-end test, which is called only at statement boundaries (after a statement in a block, after `return`, before each print argument and after the print list) — so a newline between any other two tokens cannot change the parse; the lexical tables: keywords are recognised on the whole maximal letter/digit/underscore run and map to their token tags; numeric literals accept digits and '.' only (never a byte that starts an operator); both quote characters reach the same string scanner, which ends at the opening quote character and processes no escapes; the escape table applied when a string literal is evaluated (\\n, \\t, \\\\; anything else and a trailing backslash are errors; other bytes copied unchanged) and every evaluation of a literal goes through it; blanks skipped are exactly space, CR, TAB and #-comments up to but excluding the newline, which is a token; the operator spellings (one- and two-byte forms, longest match first)." +
 			" Numeric literals are evaluated by strconv.ParseFloat alone; the string scanner advances exactly one unconditional byte per step; EOF is produced only under atEnd(); the statement-end test answers true as soon as a newline was seen; a prefix operator takes its operand from the precedence-climbing function on every path." +
 			" A statement end that was found (a consumed ';') is recorded before the parsing function returns; Lexer.src is the caller's text unchanged." +
-			" An answer of the statement-end test is never dropped.",
+			" An answer of the statement-end test is never dropped." +
+			" Every successful advance clears the newline flag before it may set it.",
 		notDecided: "where exactly the parser lets a newline end a statement (it depends on the dynamic didEndStatement flag across calls); only the structural clause that the flag is consulted at statement boundaries alone is decided.",
 	})
 }
